@@ -1,5 +1,5 @@
 (* Run/RngRun.v -- correspondence verdicts for C19. *)
-From Coq Require Import NArith ZArith List Bool.
+From Coq Require Import NArith ZArith List Bool Floats Uint63.
 From SCAD Require Import Gen.RngConsts Rng.MT.
 Import ListNotations.
 
@@ -18,3 +18,12 @@ Definition stream_verdict (c : N * list N) : Z :=
 Definition range_verdict (c : N * N * Z * Z * Z) : Z :=
   let '(u, num, mn, mx, iv) := c in
   ((if N.eqb (f01_num u) num then 0 else 1) + (if Z.eqb (i32_minmax mn mx u) iv then 0 else 2))%Z.
+
+(* f64_minmax in binary64: min + (max - min) * (f32_0_1() as f64); the factor is f01_num u / 2^32 exactly *)
+Definition f01_float (u : N) : float := PrimFloat.div (PrimFloat.of_uint63 (Uint63.of_Z (Z.of_N (f01_num u)))) 4294967296%float.
+Definition f64_minmax_F (mn mx : float) (u : N) : float := PrimFloat.add mn (PrimFloat.mul (PrimFloat.sub mx mn) (f01_float u)).
+(* 0 = bit-identical (as numbers), 1 = differs; 2 = leaves [min, max] *)
+Definition f64_verdict (c : N * float * float * float) : Z :=
+  let '(u, mn, mx, dv) := c in
+  let m := f64_minmax_F mn mx u in
+  ((if PrimFloat.eqb m dv then 0 else 1) + (if PrimFloat.leb mn dv && PrimFloat.leb dv mx then 0 else 2))%Z.
